@@ -26,7 +26,10 @@ def hx(s):
 def gen_tree(rng):
     """returns (go_ops, model_ops, expectation-data)"""
     ids = [(3, 0x45e, 0x28e, 0x110), (5, 0x54c, 0x9cc, 0x8111), (0, 0, 0, 0), (3, 1, 2, 3)]
-    dev_id = ids[0]
+    # the device asking: mostly an ordinary identifier; sometimes one with zero vendor and product but a bus / version
+    # (uinput and platform devices), or with only one non-zero component — none of these is the default (all-zero) identifier
+    dev_id = rng.choice([ids[0], ids[0], ids[0], (6, 0, 0, 0), (0, 0, 0, 5), (25, 0, 0, 1), (0, 0x45e, 0, 0), (0, 0, 7, 0), (3, 0x45e, 0x28e, 0)])
+    ids[0] = dev_id
     go, mo = ["tree.reset"], ["tree.reset"]
     maps = [dict() for _ in range(4)]     # expected: id -> filename, built with the same rule as the property states
     missing = set()
@@ -50,6 +53,16 @@ def gen_tree(rng):
             present.append(("sub/dir/nested.toml", ids[3]))
         for name, ident in present:
             files[r].append((name, "ok", ident, valid_cfg(ident)))
+        # a candidate that is a symbolic link to a configuration kept elsewhere (dot-file managers, shared set-ups):
+        # the link's own name decides whether it is a configuration file, its target's content is the configuration
+        if rng.random() < 0.25:
+            ident = rng.choice([dev_id, (0, 0, 0, 0), ids[1]])
+            lname = rng.choice(["link_%d.toml", "zz_link_%d.TOML", "l/ink_%d.toml"]) % rng.randrange(100)
+            tname = "store/%s_%d.%s" % (rng.choice(["cfg", "x"]), rng.randrange(1000), rng.choice(["toml.orig", "conf", "txt"]))
+            files[r].append((tname, "nontoml", ident, valid_cfg(ident) + b"# " + b"x" * rng.choice([0, 10, 300]) + b"\n"))
+            files[r].append((lname, "link-ok", ident, "@hidi-config/" + ROOTS[r] + "/" + tname))
+        if rng.random() < 0.06:
+            files[r].append(("dangling_%d.toml" % rng.randrange(100), "link-fail", None, rng.choice(["nowhere.toml", "@hidi-config/" + ROOTS[r]])))
         # decorations: broken files, non-TOML files, empty dirs, dir named *.toml
         for _ in range(rng.choice([0, 0, 1, 2, 4])):
             k = rng.random()
@@ -85,18 +98,25 @@ def gen_tree(rng):
                 go.append("tree.dir %d %s" % (r, hx(name)))
                 mo.append("tree.dir %d %s" % (r, hx(name)))
                 continue
+            if kind in ("link-ok", "link-fail"):
+                go.append("tree.link %d %s %s" % (r, hx(name), hx(content)))
+                if kind == "link-ok":
+                    mo.append("tree.file %d %s ok %d %d %d %d" % ((r, hx(name)) + ident))
+                else:
+                    mo.append("tree.file %d %s fail" % (r, hx(name)))
+                continue
             go.append("tree.file %d %s %s" % (r, hx(name), hx(content)))
             if kind == "ok" or kind == "nontoml":
                 mo.append("tree.file %d %s ok %d %d %d %d" % ((r, hx(name)) + ident))
             else:
                 mo.append("tree.file %d %s fail" % (r, hx(name)))
         # expectation (independent of the model): walk order = sorted by path components; later wins
-        for name, kind, ident, content in sorted([f for f in files[r] if f[1] == "ok"], key=lambda f: f[0].encode().split(b"/")):
+        for name, kind, ident, content in sorted([f for f in files[r] if f[1] in ("ok", "link-ok")], key=lambda f: f[0].encode().split(b"/")):
             maps[r][ident] = name.split("/")[-1]
     go.append("tree.load")
     mo.append("tree.load")
     finds = []
-    for ident in [dev_id, ids[1], ids[3], (9, 9, 9, 9)]:
+    for ident in [dev_id, ids[1], ids[3], (9, 9, 9, 9), rng.choice([(6, 0, 0, 0), (0, 0, 0, 1), (0, 0, 0, 0)])]:
         for ty in range(4):
             op = "find %d %d %d %d %d" % (ident + (ty,))
             go.append(op)
